@@ -62,7 +62,19 @@ fn inject(n: &mut Node, u: &mut Un, names: &mut Names, hidden: bool, vis: &mut V
     let mut put = |d: &mut Option<DocSpec>, u: &mut Un, names: &mut Names, hidden: bool, vis: &mut Vec<(String, String)>, hid: &mut Vec<String>| {
         if u.chance(170) {
             let (id, text) = mk_text(u, names, true);
-            *d = Some(DocSpec::plain(text.clone()));
+            *d = Some(if u.chance(40) && text.starts_with(&id) && !text.contains("\n\n") {
+                // the same text cut into styled fragments that touch each other: literal,
+                // emphasis, invalid, plain (style changes must nest properly in HTML)
+                let rest = &text[id.len()..];
+                let mid = rest.char_indices().nth(rest.chars().count() / 2).map_or(0, |x| x.0);
+                DocSpec(vec![
+                    (StyleK::Literal, id.clone()),
+                    (StyleK::Emphasis, rest[..mid].to_owned()),
+                    (StyleK::Invalid, rest[mid..].to_owned()),
+                ])
+            } else {
+                DocSpec::plain(text.clone())
+            });
             if hidden {
                 hid.push(id);
             } else {
@@ -445,13 +457,52 @@ pub fn check_case(case: &Case, ctx: &mut Ctx) -> Verdict {
                 if l.info.version.is_some() {
                     flags.push(format!("--{}", l.info.version_longs()[0]));
                 }
-                for f in flags {
-                    if !section.contains(&f) {
+                for f in &flags {
+                    if !section.contains(f.as_str()) {
                         return fail(
                             "markdown/level-section-misses-its-help-or-version-flag",
                             format!("section {:?} does not mention {}", title, f),
                             &md,
                         );
+                    }
+                }
+                // the same in the manpage: sections of subcommands start at a `.SH`/`.SS`
+                // request whose argument is the upper-cased path
+                if n_levels > 1 {
+                    let want = title.to_uppercase();
+                    let mut inside = false;
+                    let mut sec = String::new();
+                    let mut found = false;
+                    for ln in roff.lines() {
+                        if ln.starts_with(".SH") || ln.starts_with(".SS") {
+                            let arg = ln[3..]
+                                .replace("\\ ", " ")
+                                .replace("\\-", "-")
+                                .trim()
+                                .trim_matches('"')
+                                .to_uppercase();
+                            if arg.starts_with("APP") {
+                                inside = arg == want;
+                                found |= inside;
+                                continue;
+                            }
+                        }
+                        if inside {
+                            sec.push_str(&ln.replace("\\-", "-"));
+                            sec.push('\n');
+                        }
+                    }
+                    if found {
+                        for f in &flags {
+                            if !sec.contains(f.as_str()) {
+                                return fail(
+                                    "roff/level-section-misses-its-help-or-version-flag",
+                                    format!("manpage section {:?} does not mention {}", want, f),
+                                    &roff,
+                                );
+                            }
+                        }
+                        ctx.class("roff-section-flags-checked");
                     }
                 }
             }
